@@ -44,6 +44,20 @@ def run(op, a):
         return int(a["x"])
     if op == "ceil":
         return float(np.ceil(a["x"]))
+    if op == "argmin_nan":
+        return int(jnp.argmin(jnp.array(a["x"], dtype=jnp.float32)))
+    if op == "argsort":
+        return [int(v) for v in jnp.argsort(jnp.array(a["x"], dtype=jnp.float32))]
+    if op == "nanmax":
+        x = jnp.array(a["x"], dtype=jnp.float32)
+        return [float(jnp.nanmax(x)), float(jnp.nanmin(x))]
+    if op == "tree_leaves":
+        t = json.loads(a["tree"])
+        return [int(v) for v in jax.tree_util.tree_leaves(t)]
+    if op == "tree_map_none":
+        t = json.loads(a["tree"])
+        r = jax.tree_util.tree_map(lambda v: v + 100, t)
+        return json.dumps(r, sort_keys=True)
     raise ValueError(op)
 
 
